@@ -134,6 +134,8 @@ def mut(e):
 def run(ctx):
     ctx.mc("MC_ExtKey", core.cfg_of("MC_ExtKey.cfg"), label="12 versions + near misses x field corners (payload level); 111-char theorem")
     events = core.build_events(ctx, gen_inputs(ctx))
+    events += core.suite_events(ctx, ["tests/test_bip32.py", "tests/test_base_wallet.py", "tests/test_bip49.py", "tests/test_bip85.py"],
+                                ("ExtSer", "ExtParse", "Import"), len(events), limit=80 if ctx.quick else 1500)
     for e in events[:1] + events[5:6] + events[-1:]:
         ctx.sample({"call": describe(e), "res": str(e["res"])[:200]})
     rj = ctx.validate(MODULE, events, min_shard=30)
